@@ -398,6 +398,15 @@ def step (s : St) (w : List String) : St × String :=
           (s, line s s!"last={fmtElems [e]} next={nx}" s!"{n} off={q.off} len={q.len} first={q.first}" [(specR, specC s)])
         | x => (s, line s "refused" (resName x) [(specR, specC s)])
     | _, _, _ => (s, "bad-op")
+  | ["g", "reuse", sp, els, txt] =>
+    -- a built path set anew from a text: what was there before does not matter
+    match parseChar sp, (els.splitOn ",").mapM parseText, parseText txt with
+    | some sp, some _, some txt =>
+      let specR := "elems=" ++ fmtElems (PathMap.splitPath sp 0 txt)
+      match pathElems sp 0 txt with
+      | .ok es => (s, line s ("elems=" ++ fmtElems es) "-" [(specR, specC s)])
+      | x => (s, line s (resName x) "-" [(specR, specC s)])
+    | _, _, _ => (s, "bad-op")
   | ["g", "extend", sp, txt, skip, els] =>
     match parseChar sp, parseText txt, skip.toNat?, (els.splitOn ",").mapM parseText with
     | some sp, some txt, some skip, some es =>
